@@ -27,13 +27,13 @@ def plan(tier, seed):
     q = tier == "quick"
     specs = []
     for _ in range(4 if q else 12):
-        specs.append({"kind": "confusion", "count": 130 if q else 900})
+        specs.append({"kind": "confusion", "count": 300 if q else 2500})
     for _ in range(3 if q else 8):
-        specs.append({"kind": "strip_env", "count": 200 if q else 1500})
+        specs.append({"kind": "strip_env", "count": 600 if q else 5000})
     for _ in range(2 if q else 6):
-        specs.append({"kind": "strip_deleg", "count": 200 if q else 1500})
+        specs.append({"kind": "strip_deleg", "count": 600 if q else 5000})
     for _ in range(2 if q else 6):
-        specs.append({"kind": "strip_root", "count": 120 if q else 1000})
+        specs.append({"kind": "strip_root", "count": 400 if q else 3000})
     return specs
 
 
